@@ -727,7 +727,71 @@ func TestC11Deep(t *testing.T) {
 	}
 }
 
+// ---- template names that contain the words of the include tag -------------------------------------------
+
+type C11NameCase struct {
+	Name  BStr `json:"name"`
+	Opts  int  `json:"opts"`  // bit0 with, bit1 only, bit2 ignore missing, bit3 sandboxed
+	Quote int  `json:"quote"` // 0 single quotes, 1 double quotes, 2 the name comes from a variable
+}
+
+// checkC11Name: an include renders the named template, whatever the name is made of.
+func checkC11Name(c C11NameCase) error {
+	name := string(c.Name)
+	opts, want := "", "A[inc:|outer]B"
+	if c.Opts&4 != 0 {
+		opts += " ignore missing"
+	}
+	if c.Opts&1 != 0 {
+		opts += " with {'w': 'W'}"
+		want = "A[inc:W|outer]B"
+	}
+	if c.Opts&2 != 0 {
+		opts += " only"
+		want = strings.Replace(want, "|outer", "|", 1)
+	}
+	if c.Opts&8 != 0 {
+		opts += " sandboxed"
+	}
+	written := "'" + name + "'"
+	switch c.Quote {
+	case 1:
+		written = "\"" + name + "\""
+	case 2:
+		written = "nm"
+	}
+	tm := map[string]string{"main": "A{% include " + written + opts + " %}B", name: "[inc:{{ w }}|{{ o }}]"}
+	e := newEngine(tm)
+	e.EnableSandbox(allowAll{})
+	r := render(e, "main", map[string]interface{}{"nm": name, "o": "outer"})
+	if r.Failed() || r.Out != want {
+		return fmt.Errorf("include of the template named %s (written %s%s): %v, want %s", q(name), written, opts, r, q(want))
+	}
+	return nil
+}
+
+var c11OddNames = []string{"page with spaces", "a with b", "with", "x only", "only", "ignore missing", "a ignore missing b", "sandboxed", "in", "a in b", "a as b", "import x", "from a import b", "two  blanks", " lead", "trail ",
+	"tab\tname", "\u00e9 \u00e0", "with {a: 1}", "x with y only", "if", "endblock", "a|b", "a~b", "[x]", "{y}", "a.b.c", "-dash-", "#hash", "%percent"}
+
+func TestC11Names(t *testing.T) {
+	r := NewRec(t, "C11", "exhaustive: 30 template names that contain words and characters of the tag language (with, only, ignore missing, sandboxed, in, as, import, blanks, brackets, operators), included with each of the 16 option combinations, the name written in single quotes, in double quotes and taken from a variable; oracle: the named template renders in place; all cases non-trivial")
+	defer r.Flush()
+	r.SetExhaustive()
+	for _, name := range c11OddNames {
+		for opts := 0; opts < 16; opts++ {
+			for quote := 0; quote < 3; quote++ {
+				c := C11NameCase{Name: BStr(name), Opts: opts, Quote: quote}
+				r.Case(fmt.Sprint(name, opts, quote), true, c)
+				if err := checkC11Name(c); err != nil {
+					r.FailEnumKey(t, "C11.name", name, c, err)
+				}
+			}
+		}
+	}
+}
+
 func init() {
+	reg("C11.name", checkC11Name)
 	reg("C11.rel", checkC11Rel)
 	reg("C11.later", checkC11Later)
 	reg("C11.deep", checkC11Deep)
